@@ -51,11 +51,20 @@ func main() {
 	replay := flag.String("replay", "", "replay file: re-run the rule instance named in it")
 	listF := flag.Bool("list", false, "list properties")
 	nocontrols := flag.Bool("nocontrols", false, "skip overlay controls in the thorough tier")
+	selfF := flag.Bool("selftest", false, "self-test of the normalisation on the fixture program")
 	invF := flag.Bool("inventory", false, "print the inventory of first-party functions (linux, windows, darwin)")
 	flag.BoolVar(&noInline, "noinline", false, "do not inline calls of helpers that are not in the inventory")
 	flag.StringVar(&repoDir, "repo", "/repo", "repository to analyse")
 	flag.StringVar(&verifDir, "verif", "/verif", "verification directory")
 	flag.Parse()
+	if *selfF {
+		msg, ok := selftestInline()
+		fmt.Println("selftest inline:", msg)
+		if !ok {
+			os.Exit(1)
+		}
+		return
+	}
 	if *invF {
 		noInline = true
 		all := map[string]bool{}
